@@ -2,7 +2,7 @@
 # usage: tools/run_all.sh quick|thorough [seed ...]   — runs every registered check sequentially, prints one line each
 tier=${1:-quick}; shift
 seeds=${*:-0}
-cd /verif
+cd "$(dirname "$0")/.." || exit 2
 for s in $seeds; do
   for c in $(python3 -c "import json;print(' '.join(x['property_id'] for x in json.load(open('MANIFEST.json'))['checks']))"); do
     out=$(VERIF_SEED=$s ./check $c $tier 2>&1); rc=$?
